@@ -201,7 +201,7 @@ class Oracle:
 
     # -- queries
     def _inc(self, n, f):
-        if n not in self.N or f == "b":
+        if n not in self.N or f[0] == "b":
             return None
         out = []
         for (e, l) in self.E:
@@ -234,7 +234,7 @@ class Oracle:
             r = self._inc(q[1], q[2])
             return "rej" if r is None else str(len(r))
         if t == "degseq":
-            if q[1] == "b":
+            if q[1][0] == "b":
                 return "rej"
             return items(f"{n};{len(self._inc(n, q[1]))}" for n in self.N)
         if t == "layers":
@@ -420,8 +420,8 @@ class Real:
     def filt(self, f):
         if f == "a":
             return {}
-        if f == "b":
-            return {"order": 1, "size": 2}
+        if f[0] == "b":      # both given (must raise), including the falsy values 0
+            return {"order": int(f[1]), "size": int(f[2])}
         return {"size": int(f[1:])} if f[0] == "s" else {"order": int(f[1:])}
 
     def agg(self):
@@ -543,7 +543,7 @@ def w_q(q):
         return f"q {t} {hgxv.enc_list(q[1])} {q[2]}"
     if t == "overlap":
         return f"q overlap {hgxv.enc_list(q[1])}"
-    return "q " + " ".join(str(x) for x in q)
+    return "q " + " ".join(("b" if isinstance(x, str) and x[:1] == "b" and x[1:].isdigit() else str(x)) for x in q)
 
 
 # ------------------------------------------------------------------------------------------ generation
@@ -706,16 +706,17 @@ def digest_queries(case, qrng):
     qs = [["nodes"], ["nodesmeta"], ["edges"], ["edgesmeta"], ["weights"], ["layers"], ["inuse"], ["hmeta"], ["dsmeta"],
           ["weighted"], ["degseq", "a"], ["degseq", f"s{qrng.choice(KS)}"], ["degseq", f"o{qrng.choice(KS)}"],
           ["aggnodes"], ["aggedges"], ["agghmeta"], ["aggweighted"]]
-    if qrng.random() < 0.3:
-        qs.append(["degseq", "b"])
+    BOTH = ["b00", "b01", "b10", "b12", "b21"]
+    if qrng.random() < 0.4:
+        qs.append(["degseq", qrng.choice(BOTH)])
     for l in range(nl):
         qs.append(["layermeta", l])
     for x in range(n):
         qs.append(["incident", x, "a"])
-        qs.append(["degree", x, qrng.choice(["a", "b", f"s{qrng.choice(KS)}", f"s{qrng.choice(KS)}", f"o{qrng.choice(KS)}",
+        qs.append(["degree", x, qrng.choice(["a", qrng.choice(BOTH), f"s{qrng.choice(KS)}", f"s{qrng.choice(KS)}", f"o{qrng.choice(KS)}",
                                              f"o{qrng.choice(KS)}"])])
         if qrng.random() < 0.4:
-            qs.append(["incident", x, qrng.choice([f"s{qrng.choice(KS)}", f"o{qrng.choice(KS)}"])])
+            qs.append(["incident", x, qrng.choice([f"s{qrng.choice(KS)}", f"o{qrng.choice(KS)}", qrng.choice(BOTH)])])
     for e in pool:
         e2 = list(e)
         qrng.shuffle(e2)
@@ -908,7 +909,7 @@ def run(ctx):
     drv = ctx.driver() if ctx.model_available else None
     for case in SEEDS:
         evaluate(ctx, drv, case, do_shrink=False)
-    n = ctx.scale(260, 9000)
+    n = ctx.scale(600, 9000)
     for _ in range(n):
         if ctx.too_many() or (ctx.time_left() is not None and ctx.time_left() < 6):
             break
